@@ -735,6 +735,9 @@ def feat_c17(tok):
         if restart and len(recs) >= 6: return "k2:" + " ".join(kinds)
     return None
 
+def c17_trace_params(exe):
+    return {"ptfile": os.path.join(os.path.dirname(exe), "instr", "points.txt")}
+
 PROPS["C17"] = dict(
     level_text="Theorems (Properties/C17.v) over an interleaving model of worker.go (Do critical section, done(), watcher and do-goroutine steps; WaitGroup objects as "
                "generations): single instance; held => instance exists, stop open, function not returned; stop closed only by the watcher holding mu after every done; "
@@ -748,7 +751,9 @@ PROPS["C17"] = dict(
          "returned, library goroutines above baseline, blocked Do calls) must equal the model's. K2: 2-5 goroutines x 1-3 Do..done holds with jitter, or a relay where "
          "the last done races the next Do; history incl. instance start/saw-stop/return events must be a model history. non-trivial = K1 case where a Do was blocked "
          "by a stop phase and a second instance started, or K2 history with >=6 ops and an instance restart; distinct by op sequence",
-    stages=[corr_stage("C17K1", 600, 2000, feature=feat_c17, seeds=3),
+    stages=[corr_stage("C17TRACE", 300, 3000, params=c17_trace_params, instrument=True, tparams={"slow": 3},
+                       feature=lambda tok: " ".join(tok[5:45]) if tok[0] == "F" else None),
+            corr_stage("C17K1", 600, 2000, feature=feat_c17, seeds=3),
             corr_stage("C17K2", 800, 5000, feature=feat_c17, seeds=3),
             corr_stage("C17SLOW", 10, 40, validate=False)],
 )
